@@ -194,7 +194,7 @@ def t_restart(ctx):
     t_c = ctx.real('t_c', 0, Exact('1/2'))
     d = Exact(ctx.cfg.get('d', '1/5'))
     # a dispatch in the very loop tick of an external cancellation (before it is delivered) is outside the claim: gap > 0
-    gap = ctx.real('gap', Exact('1/100') if how == 'cancel' else 0, Exact('3/10'))
+    gap = ctx.real('gap', Exact('1/100') if how != 'stop' else 0, Exact('3/10'))
     ctx.new_loop(horizon=8)
     bus = ctx.bus('A')
 
@@ -212,6 +212,11 @@ def t_restart(ctx):
         await asyncio.sleep(t_c)
         if how == 'stop':
             await bus.stop()
+        elif how == 'cancel_runloop':
+            # only the bus's run loop task is cancelled (a supervisor that knows which task that is); helper tasks it created survive
+            for t in list(ctx.loop._all_tasks):
+                if t is not asyncio.current_task() and not t.done() and getattr(t.get_coro(), '__name__', '') == '_run_loop':
+                    t.cancel()
         else:
             # e.g. an application-level "cancel everything except me" sweep
             for t in list(ctx.loop._all_tasks):
@@ -259,6 +264,8 @@ def jobs(tier):
         out.append(Job('C14', 's1.restart', t_restart, dict(how='cancel', d=dd), witnesses=('late dispatch accepted',)))
     for dd in ('1/20', '1/2'):
         out.append(Job('C14', 's1.restart', t_restart, dict(how='stop', d=dd)))
+    for dd in ('1/5', '1/20'):
+        out.append(Job('C14', 's1.restart', t_restart, dict(how='cancel_runloop', d=dd), witnesses=('late dispatch accepted',)))
     if tier == 'quick':
         out.append(Job('C14', 's1.flood', t_flood, dict(n_range=[47, 54]), witnesses=('rejection inside a handler',)))
         out.append(Job('C14', 's1.flood', t_flood, dict(n_range=[50, 53], retry=True), witnesses=('retry accepted',)))
